@@ -48,6 +48,10 @@ pub enum Case {
 	FailAt { blocks: u32 },
 	/// two parts over two channels; which part goes first, ticks / blocks in between, mismatch kind
 	Mpp { first: usize, split: u64, ticks_between: u32, blocks_between: u32, mismatch: u8, policy: u8 },
+	/// two parts with different final CLTV deltas (`d_first` on the part that arrives first), held, then
+	/// `rel` blocks relative to the advertised claim_deadline are mined (-1 = claim at deadline - 1) and the
+	/// user claims
+	MppDeadline { d_first: u32, d_second: u32, rel: i32 },
 	/// two parts over two channels whose onion fields are chosen independently from a small menu
 	/// (0 plain, 1 two odd custom TLVs, 2 an odd custom TLV, 3 an even custom TLV, 4 odd + even, 5 the even
 	/// TLV with another value, 6 another odd TLV); `first` = which channel's part arrives first
@@ -439,6 +443,73 @@ pub fn run_case(c: &Case) -> Result<CaseResult, (String, String)> {
 				claimable_shown: !s.claimable.is_empty(),
 			})
 		},
+		Case::MppDeadline { d_first, d_second, rel } => {
+			let total = m;
+			let secret = register(&mut w, hash, Some(m), 7200);
+			add_payment(&mut w, pre, hash, secret, total, ClaimPolicy::Hold, true);
+			let mut id2 = hash.0;
+			id2[0] ^= 1;
+			w.send_raw(0, &[(1, chans[0])], 20_000_000, hash, RecipientOnionFields::secret_only(secret, total), PaymentId(hash.0), *d_first);
+			w.run_to_quiescence(400);
+			w.send_raw(0, &[(1, chans[1])], total - 20_000_000, hash, RecipientOnionFields::secret_only(secret, total), PaymentId(id2), *d_second);
+			w.run_to_quiescence(600);
+			let s0 = seen(&w, &hash);
+			if s0.claimable.len() != 1 || s0.adds.len() != 2 {
+				return Err(viol("harness", format!("two-part payment not claimable: {:?} adds {:?}", s0.claimable, s0.adds)));
+			}
+			let min_expiry = s0.adds.iter().map(|a| a.1).min().unwrap();
+			let deadline = s0.claimable[0].1.unwrap_or(0);
+			// the advertised deadline must be one the node itself honours: it fails a part back from
+			// (that part's expiry - HTLC_FAIL_BACK_BUFFER) on
+			if deadline > min_expiry - HTLC_FAIL_BACK_BUFFER {
+				return Err(viol("claim-deadline", format!("claim_deadline {} advertised for parts expiring at {:?} (the earliest part is failed back from height {})", deadline, s0.adds.iter().map(|a| a.1).collect::<Vec<_>>(), min_expiry - HTLC_FAIL_BACK_BUFFER)));
+			}
+			let h0 = best_height(&w);
+			let target = (deadline as i64 + *rel as i64) as u32;
+			if target > h0 {
+				mine_and_sync(&mut w, target - h0);
+			}
+			let h = best_height(&w);
+			let before = seen(&w, &hash);
+			w.nodes[1].cm.claim_funds(pre);
+			w.payments[0].claimed_by_recipient = true;
+			w.pump();
+			w.run_to_quiescence(600);
+			let s = seen(&w, &hash);
+			if s.fulfills > 0 && s.fails > 0 {
+				return Err(viol("all-or-nothing", format!("{} parts fulfilled and {} parts failed", s.fulfills, s.fails)));
+			}
+			if h < deadline {
+				if before.fails > 0 {
+					return Err(viol("failed-before-deadline", format!("node failed {} part(s) back at height {} < claim_deadline {}", before.fails, h, deadline)));
+				}
+				if s.claimed != vec![total] || s.fulfills != 2 {
+					return Err(viol("claim-before-deadline", format!("claim_funds at height {} < claim_deadline {}: PaymentClaimed {:?} fulfils x{}", h, deadline, s.claimed, s.fulfills)));
+				}
+				no_error(&w, &hash)?;
+			} else {
+				// the earliest part is gone; the payment can no longer be claimed (not even partially), and the
+				// remaining part follows (its own expiry, or the MPP timeout)
+				if before.fails == 0 && h >= min_expiry - HTLC_FAIL_BACK_BUFFER {
+					return Err(viol("not-failed-at-deadline", format!("at height {} >= claim_deadline {} the node had not failed any part back", h, deadline)));
+				}
+				if s.fulfills > 0 || !s.claimed.is_empty() {
+					return Err(viol("all-or-nothing", format!("claim_funds at height {} >= claim_deadline {} fulfilled {} part(s) (PaymentClaimed {:?}) of a payment of which {} part(s) had been failed back", h, deadline, s.fulfills, s.claimed, before.fails)));
+				}
+				for _ in 0..3 {
+					w.nodes[1].cm.timer_tick_occurred();
+					w.pump();
+					w.run_to_quiescence(400);
+				}
+				mine_and_sync(&mut w, 14);
+				w.run_to_quiescence(400);
+				let end = seen(&w, &hash);
+				if end.fails != 2 || end.fulfills != 0 {
+					return Err(viol("all-or-nothing", format!("after the deadline: {} of 2 parts failed back, {} fulfilled", end.fails, end.fulfills)));
+				}
+			}
+			Ok(CaseResult { label: format!("mpp-deadline {}", if h < deadline { "claimed" } else { "expired" }), claimable_shown: true })
+		},
 		Case::MppFields { first, f1, f2 } => {
 			use lightning::ln::outbound_payment::RecipientCustomTlvs;
 			let total = m;
@@ -711,6 +782,11 @@ pub fn cases(tier: Tier) -> Vec<Case> {
 	for skim in [1u64, 1000, 1_000_000] {
 		for ticks in [0u32, 1, 2, 4] {
 			v.push(Case::Skimmed { skim_msat: skim, ticks });
+		}
+	}
+	for (d_first, d_second) in [(60u32, 60u32), (60, 64), (64, 60), (72, 60), (60, 72)] {
+		for rel in if th { (-3i32..=2).collect::<Vec<_>>() } else { vec![-1i32, 0] } {
+			v.push(Case::MppDeadline { d_first, d_second, rel });
 		}
 	}
 	for first in [0usize, 1] {
